@@ -941,7 +941,8 @@ def r09k(ctx):
                     continue
                 if fname == 'associate_input_features' and e.data[2] != key[1]:
                     continue        # the other arm: inherits from the node before
-                conds = [(a, v) for a, v in gs if mentions(
+                from ..util import resolve_namedtuples
+                conds = [(resolve_namedtuples(repo, a), v) for a, v in gs if mentions(
                     a, lambda x: x[0] == 'call' and (callee(x) or '').endswith('try_get_args'))]
                 sites.setdefault(key[0], (conds, e.node))
         ctx.floor('R09k', f'channel cases of {fname}', len(sites), 2)
